@@ -362,7 +362,9 @@ Proof.
                 (rem2 - rem2) ((pos2 + rem2) mod L)).
       { apply (cr_inv_step L HL s count (b_words b) Hs Hlt E3 ws2 rem2 pos2 rem2); try lia; try assumption.
         - apply set_word_length.
-        - intros p Hp. rewrite <- Hpa at 2. apply bit_at_clr; [|lia].
+        - intros p Hp.
+          replace (N.shiftl (N.ones rem2) 0) with (N.shiftl (N.ones rem2) (pos2 mod 64)) by (rewrite Hpa; reflexivity).
+          apply bit_at_clr; [|lia].
           pose proof (word_of_pos L pos2 HL Hpos2). lia. }
       destruct Inv3 as (K1 & _ & _ & K4). split; [exact K1|].
       intros p Hp. rewrite K4 by exact Hp. rewrite N.sub_diag, N.sub_0_r. reflexivity.
